@@ -91,6 +91,15 @@ CHECKS["C02"] = {
     "note": "Charges are lower bounds a correct accounting must make (bit lists: ceil(n/8) bytes; the library charges more). Depth oracle is three-valued between 'derefs' and 'levels' so that refactorings of the accounting do not raise alarms.",
 }
 
+CHECKS["C14"] = {
+    "engine": "tlc",
+    "level": "model_checking",
+    "design_ref": "DESIGN.md section 4 C14",
+    "technique": "TLA+ framing spec (decoder results as a function of the byte prefix and the limit) enumerated by TLC over message sequences x every cut byte x limits x reuse; hostile header words with reaction class and allocation bound; code->spec: TLC parses the real Encoder's streams",
+    "text": "Every case TLC enumerates (19k quick / ~10^6 thorough) is decoded by the real Decoder with 4 chunk sizes, with and without buffer reuse: exactly the messages whose frames precede the cut, then io.EOF iff the cut is on a frame boundary, else an error; frames larger than MaxMessageSize are rejected. Packed streams are cut at every byte. Hostile headers (segment-count words x size words x short bodies, complete tables of 101-1001 empty segments) must be accepted/rejected as the spec says (513 segments: either) and may not allocate more than the limit + 64 KiB; Unmarshal may allocate at most 64 x input + 4 KiB.",
+    "note": "Allocation accounting is gross (TotalAlloc delta, GC off). For packed streams one extra complete message before the error is tolerated (the packed reader reports a missing run-length byte on the next read).",
+}
+
 NOT_APPLICABLE = {
     "C%02d" % i: "check not built yet in this session (planned, see DESIGN.md section 9); not claimed until its TLA+ spec and conformance harness exist" for i in range(1, 21)
 }
